@@ -237,6 +237,10 @@ func (e *absEnv) val(fr *absFrame, v ssa.Value) aval {
 		if o, ok := e.globals[t.Name()]; ok {
 			return aptr{o, ""}
 		}
+		if o := e.globalInit(t); o != nil {
+			e.globals[t.Name()] = o
+			return aptr{o, ""}
+		}
 		return aunk{"global " + t.Name()}
 	case *ssa.Function:
 		return afunc{t, nil}
@@ -297,6 +301,8 @@ func describeAval(v aval) string {
 	case astrv, avals, amap:
 		d, _ := describeStrVal(t)
 		return d
+	case alo:
+		return fmt.Sprintf("(>=%d)", t.min)
 	case apos:
 		return fmt.Sprintf("pos(atom %d+%d%+d)", t.ai, t.off, t.delta)
 	case nil:
@@ -696,7 +702,15 @@ func (e *absEnv) doCall(fr *absFrame, c *ssa.CallCommon, depth int) aval {
 				if n, ok := strLen(x); ok {
 					return aint(n)
 				}
-				return aunk{"length of a string with labels of unknown length"}
+				min := int64(0)
+				for _, at := range x.atoms {
+					if at.sym == "" {
+						min += int64(len(at.lit))
+					} else {
+						min++
+					}
+				}
+				return alo{min}
 			case avals:
 				return aint(len(x.cells))
 			case amap:
@@ -778,6 +792,9 @@ func (e *absEnv) doCall(fr *absFrame, c *ssa.CallCommon, depth int) aval {
 	if v, ok := e.strCall(calleeName(c), args); ok {
 		return v
 	}
+	if v, ok := e.stdCall(fr, calleeName(c), args, depth); ok {
+		return v
+	}
 	if callee == nil || len(callee.Blocks) == 0 {
 		return aunk{"call " + calleeName(c)}
 	}
@@ -795,7 +812,7 @@ func (e *absEnv) run(fn *ssa.Function, args []aval) (res aval, undecided string)
 				undecided = a.why
 				return
 			}
-			panic(r)
+			undecided = fmt.Sprintf("the abstract evaluator could not handle a construct (%v)", r)
 		}
 	}()
 	if e.maxSteps == 0 {
@@ -934,4 +951,55 @@ func (e *absEnv) convert(t *ssa.Convert, x aval) aval {
 		return mkStr(all)
 	}
 	return x
+}
+
+// globalInit: a package-level variable of the module whose only store in the whole program is, in its package's
+// init function, a constant or a function value (e.g. `var isAvailable = (*UpstreamHost).Available`) is read as
+// that value.  Anything else stays outside the abstraction.
+func (e *absEnv) globalInit(g *ssa.Global) *aobj {
+	if g.Pkg == nil || !isModPkg(g.Pkg.Pkg.Path()) {
+		return nil
+	}
+	var val ssa.Value
+	n := 0
+	for _, m := range g.Pkg.Members {
+		f, ok := m.(*ssa.Function)
+		if !ok {
+			continue
+		}
+		for _, fn := range withClosures(f) {
+			allInstrs(fn, func(in ssa.Instruction) {
+				if st, ok := in.(*ssa.Store); ok && st.Addr == ssa.Value(g) {
+					n++
+					val = st.Val
+				}
+			})
+		}
+	}
+	if n != 1 {
+		return nil
+	}
+	o := &aobj{name: g.Name(), typ: g.Type().(*types.Pointer).Elem(), f: map[string]aval{}}
+	switch v := val.(type) {
+	case *ssa.Function:
+		o.f[""] = afunc{v, nil}
+	case *ssa.Const:
+		fr := &absFrame{regs: map[ssa.Value]aval{}}
+		o.f[""] = e.val(fr, v)
+	case *ssa.MakeClosure:
+		if len(v.Bindings) == 0 {
+			o.f[""] = afunc{v.Fn.(*ssa.Function), nil}
+		} else {
+			return nil
+		}
+	case *ssa.ChangeType:
+		if f, ok := v.X.(*ssa.Function); ok {
+			o.f[""] = afunc{f, nil}
+		} else {
+			return nil
+		}
+	default:
+		return nil
+	}
+	return o
 }
